@@ -424,7 +424,24 @@ impl Check for C15 {
             }
             names.insert(p);
         }
-        let names: Vec<String> = names.into_iter().collect();
+        // several files per directory (so that a pattern can match one file and not its
+        // siblings), and whole-path patterns derived from existing paths
+        let mut names: Vec<String> = names.into_iter().collect();
+        let dirs: Vec<String> = names.iter().filter(|p| p.contains('/')).map(|p| p.split('/').next().unwrap_or("").to_string()).collect();
+        for d in dirs.iter().take(2) {
+            for _ in 0..r.urange(1, 2) {
+                let leaf = glob_name(&mut r);
+                if leaf == "." || leaf == ".." {
+                    continue;
+                }
+                let cand = format!("{d}/{leaf}");
+                if !names.contains(&cand) && !names.iter().any(|q| q.starts_with(&format!("{cand}/")) || cand.starts_with(&format!("{q}/"))) {
+                    names.push(cand);
+                }
+            }
+        }
+        names.sort();
+        r.shuffle(&mut names);
         let k = names.len();
         sc.files = names
             .iter()
@@ -455,6 +472,24 @@ impl Check for C15 {
                 p
             })
             .collect();
+        // half of the time add a pattern built from an existing path: the path itself with one
+        // character replaced by `?`, or its file name replaced by `*<last char>`
+        if r.coin() {
+            let all: Vec<String> = sc.files.iter().map(|f| f.path.clone()).chain(sc.extra_dst.iter().map(|x| x.0.clone())).collect();
+            if !all.is_empty() {
+                let p = r.pick(&all).clone();
+                let cs: Vec<char> = p.chars().collect();
+                let pat: String = if let Some(i) = p.rfind('/') {
+                    let (dir, file) = p.split_at(i + 1);
+                    let last = file.chars().last().unwrap_or('a');
+                    if r.coin() { format!("{dir}*{last}") } else { format!("{dir}{}", file.chars().enumerate().map(|(j, c)| if j == 0 { '?' } else { c }).collect::<String>()) }
+                } else {
+                    let j = r.usize_below(cs.len().max(1));
+                    cs.iter().enumerate().map(|(i, c)| if i == j { '?' } else { *c }).collect()
+                };
+                sc.excludes.push(pat);
+            }
+        }
         sc.dst_exists = true;
         Sc15 { sync: Some(sc), bisync: None }
     }
@@ -676,12 +711,54 @@ fn c15_bisync(b: &super::c02::Sc, rep: &mut RunReport) {
             }
         }
     }
+    // the real run announces the same plan size
+    if let (Some(pd), Some(pr)) = (plan_line(&dry), plan_line(&real)) {
+        if pd != pr {
+            rep.fail("c15.bisync_dry_run_is_the_plan", "real-run-plans-differently-than-dry-run", format!("dry run announced {pd:?} (actions, conflicts), the real run from the same state {pr:?}"));
+            return;
+        }
+    }
+    // conflict-copy names of printed conflicts that are themselves live or acted-on paths: there the
+    // printed actions interact (the copy and the other action want the same name), and what the
+    // property's other clauses (C02/C06) require is that the sides agree and no version is dropped
+    let mut colliding: BTreeSet<String> = BTreeSet::new();
+    for (act, p) in &printed {
+        if act == "Conflict(BothChanged)" {
+            if let (Some(ca), Some(cb)) = (a0.get(p), b0.get(p)) {
+                let lose = if b3(ca) >= b3(cb) { cb } else { ca };
+                let lname = format!("{p}.conflict-{host}-{}", short_hex(&b3(lose)));
+                if a0.contains_key(&lname) || b0.contains_key(&lname) {
+                    colliding.insert(lname);
+                }
+            }
+        }
+    }
     // every printed action's primary effect is observed (conflict-copy collisions may add more names)
     for p in &acted {
+        if colliding.contains(p) {
+            rep.probe("printed_action_on_a_conflict_copy_name_in_use", 1);
+            let mut versions: Vec<&Vec<u8>> = Vec::new();
+            versions.extend(a0.get(p));
+            versions.extend(b0.get(p));
+            versions.extend(ea.get(p));
+            versions.extend(eb.get(p));
+            let kept = versions.iter().all(|v| has_version(&a1, p, v) && has_version(&b1, p, v));
+            if a1.get(p) != b1.get(p) || !kept {
+                rep.fail("c15.bisync_dry_run_is_the_plan", "printed-action-on-conflict-copy-name-drops-a-version", format!("path {p:?}: printed {:?}; real run gives A={:?} B={:?}",
+                    printed.iter().filter(|(_, q)| q == p).map(|(a, _)| a).collect::<Vec<_>>(),
+                    a1.get(p).map(|x| short_hex(&b3(x))), b1.get(p).map(|x| short_hex(&b3(x)))));
+                return;
+            }
+            continue;
+        }
         if ea.get(p) != a1.get(p) || eb.get(p) != b1.get(p) {
             rep.fail("c15.bisync_dry_run_is_the_plan", "printed-action-not-what-real-run-does", format!("path {p:?}: printed {:?}; expected A={:?} B={:?}, real run gives A={:?} B={:?}",
                 printed.iter().filter(|(_, q)| q == p).map(|(a, _)| a).collect::<Vec<_>>(),
                 ea.get(p).map(|x| short_hex(&b3(x))), eb.get(p).map(|x| short_hex(&b3(x))), a1.get(p).map(|x| short_hex(&b3(x))), b1.get(p).map(|x| short_hex(&b3(x)))));
+            if std::env::var_os("SIM_DEBUG").is_some() {
+                let show = |t: &std::collections::BTreeMap<String, Vec<u8>>| t.iter().map(|(k, v)| format!("{k:?}={}", short_hex(&b3(v)))).collect::<Vec<_>>().join(", ");
+                std::eprintln!("dry-run output:\n{out}\nA0: {}\nB0: {}\nA1: {}\nB1: {}\nreal stdout:\n{}\nreal stderr:\n{}", show(&a0), show(&b0), show(&a1), show(&b1), real.procs[0].out_str(), real.procs[0].err_str());
+            }
             return;
         }
     }
